@@ -855,14 +855,29 @@ func verifAssume(cond bool) {}
 //@   modifies *i
 
 //@ func ParseLimeURI :: (s) (result0, result1)
-//@   props C02
+//@   props C01 C02
 //@   ensures err == nil ==> result0 != nil && fresh(result0) && result0.url != nil
+//@   ensures [C01,C02] @wrapsparsed err == nil ==> urlText(result0.url) == urlNorm(s) && urlParsed(result0.url)
 //@   modifies nothing
 
 //@ func (*URI).UnmarshalText :: (u, text) (result)
-//@   props C02
+//@   props C01 C02
 //@   requires u != nil
+//@   ensures [C01,C02] @decodestext result == nil ==> u.url != nil && urlText(u.url) == urlNorm(bytes(text)) && urlParsed(u.url)
 //@   modifies *u
+
+//@ func (*URI).MarshalText :: (u) (result0, result1)
+//@   props C01 C02
+//@   requires u != nil
+//@   ensures [C01,C02] @printswhole u.url != nil ==> result1 == nil && bytes(result0) == textOf_URI(u)
+//@   modifies nothing
+
+//@ func (*URI).String :: (u) (result)
+//@   props C01 C02
+//@   requires u != nil
+//@   ensures [C01,C02] @printswhole u.url != nil ==> result == textOf_URI(u)
+//@   ensures u.url == nil ==> result == ""
+//@   modifies nothing
 
 // ---------------------------------------------------------------------------
 // C01 / C02 - wire round-trip lemmas
@@ -1061,9 +1076,20 @@ func lemmaStableMediaType(s string) (m MediaType, m2 MediaType, accepted bool, o
 //@ spec fn textOK_NotificationEvent(e NotificationEvent) bool = validEvent(e)
 //@ spec fn textOK_CommandMethod(m CommandMethod) bool = validMethod(m)
 //@ spec fn textOK_SessionState(s SessionState) bool = validState(s)
-//@ spec fn textOK_URI(u *URI) bool = uninterpreted
-//@ spec fn textOf_URI(u *URI) string = uninterpreted
-//@ spec fn parsed_URI(u *URI) bool = uninterpreted
+// URI text form. net/url is outside reach: urlText(x) names what (*url.URL).String
+// returns for x and urlNorm(s) the text of the URL that url.Parse builds from s
+// (extern.spec). On top of these two names the URI methods are verified:
+// MarshalText/String print exactly urlText of the wrapped URL, UnmarshalText /
+// ParseLimeURI wrap exactly the URL parsed from the text. textOK_URI(u) - "the
+// printed text parses back to a URL that prints the same" - is then a definition,
+// not an uninterpreted predicate; that it holds for every parsed URL (stableRaw)
+// remains the assumption about net/url, exercised by the thorough tier.
+//@ spec fn urlText(x *url.URL) string = uninterpreted
+//@ spec fn urlNorm(s string) string = uninterpreted
+//@ spec fn urlParsed(x *url.URL) bool = uninterpreted
+//@ spec fn textOf_URI(u *URI) string = urlText(u.url)
+//@ spec fn textOK_URI(u *URI) bool = u.url != nil && urlNorm(urlText(u.url)) == urlText(u.url)
+//@ spec fn parsed_URI(u *URI) bool = u.url != nil && urlParsed(u.url)
 // jsonValid(s): s is a JSON text in the form json.Marshal produces (valid, no
 // insignificant whitespace, HTML-escaped). Only such texts travel byte for byte
 // inside a *json.RawMessage field (encoding/json re-compacts and re-escapes);
